@@ -197,6 +197,10 @@ func runHTTPConcurrent(e *env) {
 	e.setup = false
 
 	exp := &cache.HTTPTransfer{}
+	if tr.Logger {
+		exp.Logger = shapeLogger(quietLogger{}, tr.LogMask)
+	}
+
 	expBefore := map[string]map[string]trEnt{}
 
 	for _, c := range tr.Exporter {
@@ -217,6 +221,9 @@ func runHTTPConcurrent(e *env) {
 
 	for n := 0; n < tr.Importers; n++ {
 		im := &importer{tr: &cache.HTTPTransfer{}, stores: map[string]*trStore{}}
+		if tr.Logger {
+			im.tr.Logger = shapeLogger(quietLogger{}, tr.LogMask)
+		}
 
 		for _, c := range tr.Importer {
 			st := newTRStore(e, c.Backend, true)
@@ -295,6 +302,11 @@ func runHTTP(e *env) {
 
 	exp := &cache.HTTPTransfer{}
 	imp := &cache.HTTPTransfer{}
+
+	if tr.Logger {
+		exp.Logger = shapeLogger(quietLogger{}, tr.LogMask)
+		imp.Logger = shapeLogger(quietLogger{}, tr.LogMask)
+	}
 	expStores := map[string]*trStore{}
 	impStores := map[string]*trStore{}
 	expBefore := map[string]map[string]trEnt{}
